@@ -19,6 +19,7 @@ T = "{%s}" % NS["table"]
 O = "{%s}" % NS["office"]
 E = 0
 S = 9
+Z = 8
 
 
 # ---------------------------------------------------------------- building
@@ -28,6 +29,9 @@ def cell_xml(c: int, rep: int = 1) -> str:
         return f"<table:table-cell{r}/>"
     if c == S:
         return f'<table:table-cell table:style-name="ce1"{r}/>'
+    if c == Z:
+        # a real value that is falsy in Python, written without any text:p child (as other producers may do)
+        return f'<table:table-cell office:value-type="float" office:value="0"{r}/>'
     return (
         f'<table:table-cell office:value-type="float" office:value="{c}"{r}>'
         f"<text:p>{c}</text:p></table:table-cell>"
@@ -99,6 +103,8 @@ def make_cell(c: int, rep: int = 1):
         cell = Cell()
     elif c == S:
         cell = Cell(style="ce1")
+    elif c == Z:
+        cell = Cell(0)
     else:
         cell = Cell(c)
     if rep > 1:
@@ -151,8 +157,10 @@ def cell_code(el, valmap: dict | None = None) -> int:
         v = el.get(O + "value")
         try:
             f = float(v)
-            if f == int(f) and 0 < int(f) < 9 and el.get(T + "style-name") is None:
+            if f == int(f) and 0 < int(f) < 8 and el.get(T + "style-name") is None:
                 return int(f)
+            if f == 0 and el.get(T + "style-name") is None:
+                return Z
         except (TypeError, ValueError):
             pass
         key = ("float", v, el.get(T + "style-name"))
@@ -309,8 +317,10 @@ def val_code(v, valmap: dict | None = None) -> int:
         return _code(("pybool", v), valmap)
     if isinstance(v, (int, Decimal, float)):
         try:
-            if v == int(v) and 0 < int(v) < 9:
+            if v == int(v) and 0 < int(v) < 8:
                 return int(v)
+            if v == 0:
+                return Z
         except (ValueError, OverflowError):
             pass
     return _code(("py", repr(v)), valmap)
@@ -325,13 +335,18 @@ def live_cell_code(cell, valmap: dict | None = None) -> int:
 
 
 # ---------------------------------------------------------------- applying ops
+def pyval(c):
+    """Python value given to the API for an abstract cell code."""
+    return None if c == E else (0 if c == Z else c)
+
+
 def apply_op(table, o: dict, rng: random.Random | None = None, enc: str = "max"):
     """Apply one Grid.tla operation record to a real Table."""
     op = o["op"]
     if op == "set_cell":
         return table.set_cell((o["x"], o["y"]), make_cell(o["c"], o["n"]))
     if op == "set_value":
-        v = o["c"] if o["c"] != E else None
+        v = pyval(o["c"])
         return table.set_value((o["x"], o["y"]), v)
     if op == "insert_cell":
         return table.insert_cell((o["x"], o["y"]), make_cell(o["c"], o["n"]))
@@ -351,11 +366,11 @@ def apply_op(table, o: dict, rng: random.Random | None = None, enc: str = "max")
     if op == "delete_row":
         return table.delete_row(o["y"])
     if op == "set_row_values":
-        return table.set_row_values(o["y"], [v if v != E else None for v in o["r"]])
+        return table.set_row_values(o["y"], [pyval(v) for v in o["r"]])
     if op == "set_values":
         if alt:
             return table.set_cells([[make_cell(v) for v in line] for line in o["m"]], (o["x"], o["y"]))
-        m = [[v if v != E else None for v in line] for line in o["m"]]
+        m = [[pyval(v) for v in line] for line in o["m"]]
         return table.set_values(m, (o["x"], o["y"]))
     if op == "insert_column":
         return table.insert_column(o["x"], make_column(o["c"], o["n"]))
@@ -367,7 +382,7 @@ def apply_op(table, o: dict, rng: random.Random | None = None, enc: str = "max")
         return table.delete_column(o["x"])
     if op == "set_column_cells":
         if alt and S not in o["r"]:
-            return table.set_column_values(o["x"], [c if c != E else None for c in o["r"]])
+            return table.set_column_values(o["x"], [pyval(c) for c in o["r"]])
         return table.set_column_cells(o["x"], [make_cell(c) for c in o["r"]])
     if op == "clear":
         return table.clear()
@@ -389,7 +404,7 @@ def apply_row_op(row, o: dict, rng: random.Random | None = None):
     alt = rng is not None and rng.random() < 0.35
     if op == "row_set_cell":
         if alt and o["n"] == 1 and o["c"] != S:
-            return row.set_value(o["x"], o["c"] if o["c"] != E else None)
+            return row.set_value(o["x"], pyval(o["c"]))
         return row.set_cell(o["x"], make_cell(o["c"], o["n"]))
     if op == "row_clear":
         return row.clear()
@@ -402,7 +417,7 @@ def apply_row_op(row, o: dict, rng: random.Random | None = None):
     if op == "row_set_values":
         if alt:
             return row.set_cells([make_cell(v) for v in o["r"]], start=o["x"])
-        return row.set_values([v if v != E else None for v in o["r"]], start=o["x"])
+        return row.set_values([pyval(v) for v in o["r"]], start=o["x"])
     if op == "row_rstrip":
         return row.rstrip(aggressive=bool(o["c"]))
     raise ValueError(op)
